@@ -79,10 +79,16 @@ def scenario(sim):
     # one run in five records a LONG stream of tiny packets instead, so that edits 256 and 512 packets apart are
     # possible (per-packet state that wraps around: counters in nonces, sequence numbers)
     long_stream = sim.seed % 5 == 2
-    n = 530 + sim.choose(40) if long_stream else 3 + sim.choose(4)
+    # another run in five: a few LARGE packets (beyond 16 KiB, up to the largest a channel sends), edited at sampled
+    # offsets: start, around every 4 KiB multiple, the tail and the MAC (integrity code that treats large inputs
+    # differently, or in pieces, shows only here)
+    big_packets = sim.seed % 5 == 3
+    n = 530 + sim.choose(40) if long_stream else (2 + sim.choose(2) if big_packets else 3 + sim.choose(4))
     for i in range(n):
         size = (1, 2, 5)[sim.choose(3)] if long_stream else (1, 2, 5, 16, 17, 33, 60, 120)[sim.choose(8)]
         body = pkt.random_message(sim, False)[:size]
+        if big_packets:
+            body = b"\x5e" + sim.payload.randbytes((16385, 20000, 32700, 35000, 16384 + 16)[sim.choose(5)])
         if body[0] == 21:
             body = b"\x5e" + body[1:]
         m = Message()
@@ -100,6 +106,8 @@ def scenario(sim):
         bounds.append((o, o + len(s)))
         o += len(s)
     start = bounds[0][1]          # encryption is active after the first NEWKEYS
+    if len(segs) != len(msgs):
+        raise RuntimeError("harness: %d wire segments for %d messages" % (len(segs), len(msgs)))
     desc = {"suite": [k.describe() for k in ks], "packets": len(segs), "stream_bytes": len(stream)}
 
     def pkt_of(off):
@@ -139,7 +147,20 @@ def scenario(sim):
             raise Violation(("C02", "no-failure", kind), "%s at %s: receiver neither failed nor hit EOF" % (kind, where), desc)
 
     L = len(stream)
-    for off in range(start, min(L, start + 90) if long_stream else L):
+    if big_packets:
+        offs = set()
+        for a, b in bounds[1:]:
+            offs.update(range(a, min(b, a + 24)))
+            offs.update(range(max(a, b - 100), b))
+            for k in range(4096, b - a, 4096):
+                offs.update(range(a + k - 6, min(b, a + k + 6)))
+            for _ in range(25):
+                offs.add(a + sim.payload.randrange(b - a))
+        positions = sorted(offs)
+        sim.probe("big_packet_streams")
+    else:
+        positions = range(start, min(L, start + 90) if long_stream else L)
+    for off in positions:
         mask = (0x01, 0x80, 0xFF, 1 + sim.payload.randrange(255))[off & 3]
         case(stream[:off] + bytes([stream[off] ^ mask]) + stream[off + 1:], "flip", off)
         case(stream[:off] + stream[off + 1:], "delete", off)
